@@ -187,12 +187,23 @@ func c11Run(run *ev.Run) {
 		depth = 12
 	}
 	var total seqx.Stats
-	stores := []string{"memory", "redis"}
+	stores := []string{"memory", "redis", "memory+cancel"}
 	for _, store := range stores {
-		spec := world.Spec{Store: store, Forward: true}
+		spec := world.Spec{Store: strings.TrimSuffix(store, "+cancel"), Forward: true}
 		o := hOpts{Spec: spec, Advance: true, GoodIdP: c11Answers(run.Tier), Prefix: loginPrefix, OnlyLive: true, MaxSessions: 3, Rollover: true}
+		if strings.HasSuffix(store, "+cancel") {
+			// the caller gives up (ext_authz time-out, client gone) at any environment call of a check, before it or after
+			// its effect: what the provider has committed by then must not be lost to the session. Memory store only: the
+			// Redis client refuses to work on a cancelled context, which turns a cancellation into store failures - a
+			// different subject (environment faults: C01)
+			o.Faults, o.FaultModes, o.MaxDev, o.MaxSessions, o.Rollover = true, []string{"cancel", "cancel-after"}, 1, 1, false
+			o.GoodIdP = o.GoodIdP[:1]
+		}
 		m := o.model(c11Monitor(run, spec))
 		m.MaxDepth = depth
+		if strings.HasSuffix(store, "+cancel") {
+			m.MaxDepth = 5
+		}
 		st := seqx.Explore(run, m)
 		total.States += st.States
 		total.Transitions += st.Transitions
